@@ -13,6 +13,8 @@ appended to the positional ones in source order.  Conventions (all visible in th
   * `np.f(..)` / `numpy.f(..)` are calls of the function "np.f"; `a.m(..)` on anything else is a method call;
   * a call of a capitalised name (constructor) or of a function of a known module (`stim.f`) keeps its keyword names: each
     keyword argument becomes the pair `(name, value)`; other calls append keyword values to the positional ones;
+  * `xs.extend(e)` / `xs.append(e)` on a local list is `xs += list(e)` / `xs += [e]`; `obj.a = e`, `obj[k] = e` and calls made as
+    statements are EFFECTS (`.setattr`, `.setitem`, `.expr`): recorded by `Py.callEffects`, not executed;
   * `int(a / b)` is the builtin "int_truediv" (truncation of the exact quotient);
   * `assert c, msg` is `if c: pass else: raise`;
   * decorators are recorded by name (a cache decorator on a timing function is a semantic change: finding R1).
@@ -76,6 +78,19 @@ TARGETS = [
     ('IRelationComponent_has_relation', 'qce_circuit.structure.intrf_circuit_operation', 'IRelationComponent', 'has_relation'),
     ('Composite_start_time', 'qce_circuit.structure.intrf_circuit_operation_composite', 'CircuitCompositeOperation', 'start_time'),
     ('Composite_duration', 'qce_circuit.structure.intrf_circuit_operation_composite', 'CircuitCompositeOperation', 'duration'),
+    # --- C02 / C05 / C06 / C11: the builder (effects are recorded, not executed: `Py.callEffects`)
+    ('Graph_add_to_graph', 'qce_circuit.structure.intrf_circuit_operation_composite', 'CircuitGraphBranch', 'add_to_graph'),
+    ('Graph_get_leaf_at_any', 'qce_circuit.structure.intrf_circuit_operation_composite', 'CircuitGraphBranch', 'get_leaf_at_any'),
+    ('Graph_get_corresponding_node', 'qce_circuit.structure.intrf_circuit_operation_composite', 'CircuitGraphBranch', 'get_corresponding_node'),
+    ('Composite_add', 'qce_circuit.structure.intrf_circuit_operation_composite', 'CircuitCompositeOperation', 'add'),
+    ('Composite_copy', 'qce_circuit.structure.intrf_circuit_operation_composite', 'CircuitCompositeOperation', 'copy'),
+    ('Composite_apply_modifiers', 'qce_circuit.structure.intrf_circuit_operation_composite', 'CircuitCompositeOperation', 'apply_modifiers_to_self'),
+    ('Composite_decomposed', 'qce_circuit.structure.intrf_circuit_operation_composite', 'CircuitCompositeOperation', 'decomposed_operations'),
+    ('Composite_flatten', 'qce_circuit.structure.intrf_circuit_operation_composite', 'CircuitCompositeOperation', 'apply_flatten_to_self'),
+    ('Composite_extend', 'qce_circuit.structure.intrf_circuit_operation_composite', 'CircuitCompositeOperation', 'extend'),
+    ('Composite_repeat', 'qce_circuit.structure.intrf_circuit_operation_composite', 'CircuitCompositeOperation', 'repeat'),
+    ('RelationLink_copy', 'qce_circuit.structure.intrf_circuit_operation', 'RelationLink', 'copy'),
+    ('MultiRelationLink_copy', 'qce_circuit.structure.intrf_circuit_operation', 'MultiRelationLink', 'copy'),
     # --- C07: acquisition index scan
     ('AcquisitionRegistry_get_registry_at', 'qce_circuit.structure.registry_acquisition', 'AcquisitionRegistry', 'get_registry_at'),
     # --- C08: annotation instructions
@@ -90,7 +105,7 @@ TARGETS = [
 ]
 
 NUMPY_NAMES = {'np', 'numpy'}
-MODULE_NAMES = {'stim'}
+MODULE_NAMES = {'stim', 'warnings'}
 
 
 def lstr(s: str) -> str:
@@ -191,7 +206,9 @@ def expr(e: ast.AST) -> str:
                 return f'.call {lstr(e.func.id)} {llist(tagged)}'
             return f'.call {lstr(e.func.id)} {llist(args)}'
         if isinstance(e.func, ast.Attribute):
-            if isinstance(e.func.value, ast.Name) and e.func.value.id in MODULE_NAMES:
+            if isinstance(e.func.value, ast.Name) and (e.func.value.id in MODULE_NAMES or
+                                                       (e.func.value.id[:1].isupper() and not e.func.attr.isupper())):
+                # a function of a known module, or a static / class method called on the class: `Cls.method(…)`
                 return f'.call {lstr(e.func.value.id + "." + e.func.attr)} {llist(tagged)}'
             if isinstance(e.func.value, ast.Name) and e.func.value.id in NUMPY_NAMES:
                 # `dtype=` does not change the integer values the fragment is about
@@ -199,6 +216,16 @@ def expr(e: ast.AST) -> str:
                 return f'.call {lstr("np." + e.func.attr)} {llist(args)}'
             return f'.mcall ({expr(e.func.value)}) {lstr(e.func.attr)} {llist(args)}'
         return unsupported_e(e)
+    if isinstance(e, (ast.ListComp, ast.GeneratorExp)):
+        if len(e.generators) == 1 and isinstance(e.generators[0].target, ast.Name) and not e.generators[0].ifs \
+                and not e.generators[0].is_async:
+            g = e.generators[0]
+            return f'.comp ({expr(e.elt)}) {lstr(g.target.id)} ({expr(g.iter)})'
+        return unsupported_e(e)
+    if isinstance(e, ast.JoinedStr):
+        return '.fstr'
+    if isinstance(e, ast.Dict) and not e.keys:
+        return '.call "dict" []'
     if isinstance(e, ast.List):
         return f'.list {llist([expr(x) for x in e.elts])}'
     if isinstance(e, ast.Tuple):
@@ -210,8 +237,13 @@ def expr(e: ast.AST) -> str:
             return f'.index ({expr(e.value)}) {lint(-idx.operand.value)}'
         if isinstance(idx, ast.Constant) and isinstance(idx.value, int) and not isinstance(idx.value, bool):
             return f'.index ({expr(e.value)}) {lint(idx.value)}'
+        if not isinstance(idx, (ast.Slice, ast.Tuple)):
+            return f'.mcall ({expr(e.value)}) "__getitem__" {llist([expr(idx)])}'      # lookup by key: a method of the container
         return unsupported_e(e)
     return unsupported_e(e)
+
+
+LOCAL_LISTS: set = set()      # names bound to a list display / comprehension in the function being translated
 
 
 def is_docstring(s: ast.stmt) -> bool:
@@ -230,6 +262,10 @@ def stmt(s: ast.stmt) -> str:
     if isinstance(s, ast.Assign):
         if len(s.targets) == 1 and isinstance(s.targets[0], ast.Name):
             return f'.assign {lstr(s.targets[0].id)} ({expr(s.value)})'
+        if len(s.targets) == 1 and isinstance(s.targets[0], ast.Attribute):
+            return f'.setattr ({expr(s.targets[0].value)}) {lstr(s.targets[0].attr)} ({expr(s.value)})'
+        if len(s.targets) == 1 and isinstance(s.targets[0], ast.Subscript):
+            return f'.setitem ({expr(s.targets[0].value)}) ({expr(s.targets[0].slice)}) ({expr(s.value)})'
         if len(s.targets) == 1 and isinstance(s.targets[0], ast.Tuple) and all(isinstance(t, ast.Name) for t in s.targets[0].elts):
             return f'.assignTuple {llist([lstr(t.id) for t in s.targets[0].elts])} ({expr(s.value)})'
         return f'.unsupported {lstr(ast.unparse(s)[:160])}'
@@ -253,6 +289,15 @@ def stmt(s: ast.stmt) -> str:
     if isinstance(s, ast.Pass):
         return '.pass'
     if isinstance(s, ast.Expr):
+        v = s.value
+        # `xs.extend(e)` / `xs.append(e)` on a LOCAL list (bound to a list display in this function, never aliased by the
+        # functions translated here) is the rebinding `xs += list(e)` / `xs += [e]`
+        if isinstance(v, ast.Call) and isinstance(v.func, ast.Attribute) and isinstance(v.func.value, ast.Name) \
+                and v.func.value.id in LOCAL_LISTS and len(v.args) == 1 and not v.keywords:
+            if v.func.attr == 'extend':
+                return f'.aug {lstr(v.func.value.id)} .add (.call "list" [{expr(v.args[0])}])'
+            if v.func.attr == 'append':
+                return f'.aug {lstr(v.func.value.id)} .add (.list [{expr(v.args[0])}])'
         return f'.expr ({expr(s.value)})'
     return f'.unsupported {lstr(ast.unparse(s)[:160])}'
 
@@ -288,6 +333,15 @@ def translate(lean_name: str, module: str, cls: str | None, fn: str, cache: dict
         params = None
     else:
         params = [x.arg for x in a.args]
+    LOCAL_LISTS.clear()
+    for n in ast.walk(f):
+        tgt = None
+        if isinstance(n, ast.AnnAssign) and isinstance(n.target, ast.Name):
+            tgt, val = n.target.id, n.value
+        elif isinstance(n, ast.Assign) and len(n.targets) == 1 and isinstance(n.targets[0], ast.Name):
+            tgt, val = n.targets[0].id, n.value
+        if tgt and isinstance(val, (ast.List, ast.ListComp)):
+            LOCAL_LISTS.add(tgt)
     segment = ast.get_source_segment(src, f) or ''
     decs = [decorator_name(d) for d in f.decorator_list]
     body = block(f.body) if params is not None else '[.unsupported "signature"]'
